@@ -926,3 +926,199 @@ Example C06_ex_models_total :
   Roundtrip.IpHeaders.iph_read [64] = Roundtrip.Common.Err (Roundtrip.Common.EContent 0).
 Proof. repeat split; vm_compute; reflexivity. Qed.
 (* ==== end audit follow-up ==== *)
+
+(* ==== round3 v6lax begin ==== *)
+(* `Ipv6Slice::from_slice_lax` (net/ipv6_slice.rs:139), the 13th copy of the IP boundary logic,
+   so far outside every model.  Model: Parse/Ipv6SliceLax.v (module Ipv6SliceLax), proofs:
+   Equiv/Ipv6SliceLaxProofs.v, Equiv/Ipv6SliceLaxTotal.v; tied to the crate by the `ipb` cases of this property's run
+   (field `Ipv6SliceLax`).  The Rust function is NOT a forwarding alias: it is a third textual
+   copy of `Ipv6Slice::from_slice` whose "more payload announced than present" branch takes the
+   rest of the slice (LenSource::Slice) instead of returning Len(Ipv6Packet); behind the payload
+   selection it runs the STRICT extension decoder.  `Ipv4Slice` has no `from_slice_lax` in the
+   crate.
+   Vocabulary (Equiv/Ipv6SliceLaxProofs.v):
+     v6lax_of_lax6 r   what from_slice_lax answers, read off LaxIpv6Slice::from_slice's answer r;
+     v6lax_of_lax_ip r the same for the dispatching LaxIpSlice::from_slice;
+     v6lax_select      the payload selection of from_slice_lax;
+     strict_v6_tail    (Parse/LaxProofs.v) the strict code behind the payload selection;
+     strict_v6         (Parse/LaxAccess.v) a LaxIpv6Slice value without its `incomplete` flag. *)
+From EP Require Import Parse.Repr Parse.Access Parse.AccessProofs Parse.LaxAccess Parse.LaxProofs Parse.LaxFacts
+  Parse.Ipv6SliceLax Equiv.Ipv6SliceLaxProofs Equiv.Ipv6SliceLaxTotal.
+
+(* pin the meaning of the two read-off functions *)
+Check (eq_refl : v6lax_of_lax6 =
+  fun r => match r with
+           | Ok (lv, None) => Ok (strict_v6 lv)
+           | Ok (_, Some (e, _)) => Err e
+           | Err e => Err e
+           | Bug b => Bug b
+           end).
+Check (eq_refl : v6lax_of_lax_ip =
+  fun r => match r with
+           | Ok (LIpV6 lv, None) => Ok (strict_v6 lv)
+           | Ok (LIpV6 _, Some (e, _)) => Err e
+           | Ok (LIpV4 _, _) => Bug SITE_UNWRAP
+           | Err e => Err e
+           | Bug b => Bug b
+           end).
+
+(* ---- C01 / C02 shape ---- every slice value (any pointer, any contents, any length): the run
+   returns Ok or Err, never Bug (no failing unchecked read / from_raw_parts / usize subtraction /
+   exhausted fuel); the header, the extension window and the payload stored in an Ok value are
+   from_raw_parts-windows of the input (`ipv6_in`), the value satisfies the invariant of
+   Ipv6Slice (`wf_ipv6`: 40-byte header, extension window that the iterator re-walks), and on
+   octets every accessor / extension-iterator run is Bug-free with its windows inside the input *)
+Theorem C06_ipv6_slice_lax_total : forall s,
+  nobug (Ipv6SliceLax.from_slice_lax s) /\
+  forall v, Ipv6SliceLax.from_slice_lax s = Ok v ->
+    wf_ipv6 v /\ ipv6_in v s /\
+    (bytes_ok (snd s) ->
+     Forall nobug (Ipv6SliceA.accessors v) /\ Forall (win_ok s) (Ipv6SliceA.windows v)).
+Proof. exact v6lax_total. Qed.
+Print Assumptions C06_ipv6_slice_lax_total.
+
+(* the answer depends on the bytes only: moving the pointer by k moves every stored slice by k
+   (Err and Bug values EQUAL); a window of a larger buffer = a standalone copy of its bytes *)
+Theorem C06_ipv6_slice_lax_location_independent : forall k s,
+  Ipv6SliceLax.from_slice_lax (sh k s) = rmap (sh_v6 k) (Ipv6SliceLax.from_slice_lax s).
+Proof. exact v6lax_sh. Qed.
+Print Assumptions C06_ipv6_slice_lax_location_independent.
+
+Theorem C06_ipv6_slice_lax_surroundings_independent : forall bs s pos lim,
+  repr bs s pos lim ->
+  Ipv6SliceLax.from_slice_lax s =
+  rmap (sh_v6 pos) (Ipv6SliceLax.from_slice_lax (mk_slice (take (lim - pos) (drop pos bs)))).
+Proof. exact v6lax_window. Qed.
+Print Assumptions C06_ipv6_slice_lax_surroundings_independent.
+
+(* ---- C06, the copies agree ---- against LaxIpv6Slice::from_slice: plain equality with the
+   read-off function, EVERY slice value (any pointer, any contents, any length), no hypothesis.
+   (Equiv/Ipv6SliceLaxTotal.v: the lax sibling never returns Bug on any slice value --
+   C06_lax_ipv6_never_bug below; C01_lax_single_no_oob has that for windows of an octet buffer.) *)
+Theorem C06_ipv6_slice_lax_eq_lax_ipv6 : forall s,
+  Ipv6SliceLax.from_slice_lax s = v6lax_of_lax6 (LaxIpv6Slice.from_slice s).
+Proof. exact v6lax_eq_lax6_all. Qed.
+Print Assumptions C06_ipv6_slice_lax_eq_lax_ipv6.
+
+Theorem C06_ipv6_slice_lax_ok_iff : forall s v,
+  Ipv6SliceLax.from_slice_lax s = Ok v <->
+  exists lv, LaxIpv6Slice.from_slice s = Ok (lv, None) /\ v = strict_v6 lv.
+Proof. exact v6lax_ok_iff. Qed.
+Print Assumptions C06_ipv6_slice_lax_ok_iff.
+
+Theorem C06_lax_ipv6_never_bug : forall s nh,
+  nobug (LaxIpv6Slice.from_slice s) /\ nobug (LaxIpv6Exts.from_slice_lax nh s).
+Proof. exact lax6_never_bug. Qed.
+Print Assumptions C06_lax_ipv6_never_bug.
+
+(* ... against the IPv6 arm of the dispatching LaxIpSlice::from_slice (version nibble 6; the
+   F11 class is IPv4-only), every pointer, every byte string, no hypothesis; any other nibble /
+   fewer than 40 bytes: what the copy answers *)
+Theorem C06_ipv6_slice_lax_eq_lax_ip_arm : forall o b rest, N.shiftr b 4 = 6 ->
+  Ipv6SliceLax.from_slice_lax (o, b :: rest) = v6lax_of_lax_ip (LaxIpSlice.from_slice (o, b :: rest)).
+Proof. exact v6lax_eq_lax_ip_arm_all. Qed.
+Print Assumptions C06_ipv6_slice_lax_eq_lax_ip_arm.
+
+Theorem C06_ipv6_slice_lax_mismatch : forall o b rest, N.shiftr b 4 <> 6 ->
+  Ipv6SliceLax.from_slice_lax (o, b :: rest) =
+  if s_len (o, b :: rest) <? 40
+  then Err (ELen (mkLenError 40 (s_len (o, b :: rest)) LsSlice LyIpv6Header 0))
+  else Err (EContent (CeIpv6Version (N.shiftr b 4))).
+Proof. exact v6lax_mismatch. Qed.
+Print Assumptions C06_ipv6_slice_lax_mismatch.
+
+(* ---- C05 shape ---- (a) what Ipv6Slice::from_slice accepts is returned unchanged (len_source
+   included); (b) a strict rejection is kept as the same Err, except the one rejection the
+   function exists to drop -- Len(40 + payload_length, len, Slice, Ipv6Packet, 0) -- where the
+   answer is the strict tail run on the whole rest of the slice with the slice as length source;
+   the strict model never returns Bug *)
+Theorem C06_ipv6_slice_lax_extends_strict : forall s,
+  match Ipv6Slice.from_slice s with
+  | Ok v => Ipv6SliceLax.from_slice_lax s = Ok v
+  | Err e =>
+      Ipv6SliceLax.from_slice_lax s = Err e \/
+      exists h pl p,
+        Ipv6HeaderSlice.from_slice s = Ok h /\ Ipv6HeaderSlice.payload_length h = Ok pl /\
+        s_len s < 40 + pl /\
+        e = ELen (mkLenError (40 + pl) (s_len s) LsSlice LyIpv6Packet 0) /\
+        subU s 40 (s_len s - 40) = Ok p /\
+        Ipv6SliceLax.from_slice_lax s = strict_v6_tail h p LsSlice
+  | Bug _ => False
+  end.
+Proof. exact v6lax_vs_strict. Qed.
+Print Assumptions C06_ipv6_slice_lax_extends_strict.
+
+(* (c) Err exactly for an undecodable IPv6 header or a fault of the (strict) extension decoder
+   on the selected payload *)
+Theorem C06_ipv6_slice_lax_err_iff : forall s e,
+  Ipv6SliceLax.from_slice_lax s = Err e <->
+  Ipv6HeaderSlice.from_slice s = Err e \/
+  exists h pl hp,
+    Ipv6HeaderSlice.from_slice s = Ok h /\ Ipv6HeaderSlice.payload_length h = Ok pl /\
+    v6lax_select s pl = Ok hp /\ strict_v6_tail h (fst hp) (snd hp) = Err e.
+Proof. exact v6lax_err_iff. Qed.
+Print Assumptions C06_ipv6_slice_lax_err_iff.
+
+(* (d) through the lax sibling (C05_incomplete_iff): the sibling's `incomplete` flag is
+   "payload_length promised more than the slice holds"; exactly then -- or when payload_length
+   is 0 with data behind the header -- the slice is reported as length source, and when more was
+   promised than present the payload handed out ends at the slice end *)
+Theorem C06_ipv6_slice_lax_len_source : forall s v,
+  Ipv6SliceLax.from_slice_lax s = Ok v ->
+  exists lv h pl,
+    LaxIpv6Slice.from_slice s = Ok (lv, None) /\ v = strict_v6 lv /\
+    Ipv6HeaderSlice.from_slice s = Ok h /\ v6_header v = h /\
+    Ipv6HeaderSlice.payload_length h = Ok pl /\
+    lipp_incomplete (lv6_payload lv) = (s_len s <? 40 + pl) /\
+    ipp_src (v6_payload v) =
+      (if ((0 =? pl) && (40 <? s_len s)) || (s_len s <? 40 + pl)
+       then LsSlice else LsIpv6HeaderPayloadLen) /\
+    (s_len s < 40 + pl ->
+     ipp_src (v6_payload v) = LsSlice /\ s_end (ipp_slice (v6_payload v)) = s_end s).
+Proof. exact v6lax_len_source. Qed.
+Print Assumptions C06_ipv6_slice_lax_len_source.
+
+(* ---- non-vacuity ---- *)
+(* A: payload_length 100 announced, 8 bytes present (UDP): strict rejects, the lax copy hands
+      out the 8 bytes with the slice as length source (pointer 7: windows 7 later)
+   B: payload_length 8, a destination-options header announcing a routing header that is not
+      there: LaxIpv6Slice keeps the chain and a stop error, the lax copy returns that error
+   C: complete packet with one extension header: strict = lax copy
+   D: payload_length 0 with a fragment header and 3 bytes behind it: slice as length source *)
+Example C06_ex_ipv6_slice_lax :
+  bytes_ok v6lax_exA /\ bytes_ok v6lax_exB /\ bytes_ok v6lax_exC /\ bytes_ok v6lax_exD /\
+  (* A *)
+  v6lax_show (Ipv6SliceLax.from_slice_lax (7, v6lax_exA)) =
+    Some ((7, 40), None, (47, 0), 17, false, LsSlice, (47, 8)) /\
+  Ipv6Slice.from_slice (7, v6lax_exA) = Err (ELen (mkLenError 140 48 LsSlice LyIpv6Packet 0)) /\
+  Ipv6SliceLax.from_slice_lax (7, v6lax_exA) = v6lax_of_lax6 (LaxIpv6Slice.from_slice (7, v6lax_exA)) /\
+  Ipv6SliceLax.from_slice_lax (7, v6lax_exA) = v6lax_of_lax_ip (LaxIpSlice.from_slice (7, v6lax_exA)) /\
+  (* B *)
+  Ipv6SliceLax.from_slice_lax (0, v6lax_exB) =
+    Err (ELen (mkLenError 8 0 LsIpv6HeaderPayloadLen LyIpv6ExtHeader 48)) /\
+  (match LaxIpv6Slice.from_slice (0, v6lax_exB) with
+   | Ok (lv, st) => Some (win_of (x6_slice (lv6_exts lv)), st)
+   | _ => None
+   end) = Some ((40, 8), Some (ELen (mkLenError 8 0 LsIpv6HeaderPayloadLen LyIpv6ExtHeader 48),
+                               LyIpv6RouteHeader)) /\
+  (* C *)
+  v6lax_show (Ipv6SliceLax.from_slice_lax (0, v6lax_exC)) =
+    Some ((0, 40), Some 60, (40, 8), 6, false, LsIpv6HeaderPayloadLen, (48, 8)) /\
+  Ipv6SliceLax.from_slice_lax (0, v6lax_exC) = Ipv6Slice.from_slice (0, v6lax_exC) /\
+  (* D, with every accessor / iterator run and the yielded header window *)
+  v6lax_show (Ipv6SliceLax.from_slice_lax (7, v6lax_exD)) =
+    Some ((7, 40), Some 44, (47, 8), 17, true, LsSlice, (55, 3)) /\
+  (match Ipv6SliceLax.from_slice_lax (7, v6lax_exD) with
+   | Ok v => (length (Ipv6SliceA.accessors v),
+              forallb (fun r => match r with Ok _ => true | _ => false end) (Ipv6SliceA.accessors v),
+              map (fun r => match r with Ok w => Some (win_of w) | _ => None end) (Ipv6SliceA.windows v))
+   | _ => (0%nat, false, [])
+   end) = (18%nat, true, [Some (47, 8)]) /\
+  (* another version nibble *)
+  Ipv6SliceLax.from_slice_lax (0, 69 :: repeat 0 47) = Err (EContent (CeIpv6Version 4)) /\
+  Ipv6SliceLax.from_slice_lax (0, [96; 0; 0]) = Err (ELen (mkLenError 40 3 LsSlice LyIpv6Header 0)).
+Proof.
+  repeat (split; [first [apply bytes_okb_spec; vm_compute; reflexivity | vm_compute; reflexivity]|]).
+  vm_compute; reflexivity.
+Qed.
+(* ==== round3 v6lax end ==== *)
